@@ -4,8 +4,8 @@ import json, os
 import core
 
 EXTRACTORS = ["alph_confirm", "alph_poll", "alph_filters", "alph_tokeninfo", "alph_reobserve", "alph_process"]
-EXTRACTORS_C08 = ["alph_confirm", "alph_filters", "alph_tokeninfo", "alph_reobserve", "alph_process", "alph_pipeline", "alphconv"]
-EXTRACTORS_C09 = ["alph_poll", "alph_filters", "alph_tokeninfo", "alph_process", "alph_pipeline", "alphconv"]
+EXTRACTORS_C08 = ["alph_confirm", "alph_filters", "alph_tokeninfo", "alph_reobserve", "alph_process", "alph_pipeline", "alph_pipe_order", "alphconv"]
+EXTRACTORS_C09 = ["alph_poll", "alph_filters", "alph_tokeninfo", "alph_process", "alph_pipeline", "alph_pipe_order", "alphconv"]
 
 HDR = ("From Coq Require Import List ZArith Bool.\n"
        "From WH Require Import lib.Wire gen.Extracted model.AlphWatcher.\n"
@@ -400,7 +400,7 @@ def coverage(ctx, rows):
 
 
 # ================================================================== X2: the composed pipeline (model.AlphPipeline) on the histories of the "fields" family
-EXTRACTORS_PIPE = ["alph_pipeline", "alphconv"]
+EXTRACTORS_PIPE = ["alph_pipeline", "alph_pipe_order", "alphconv"]
 
 PIPE_HDR = ("From Coq Require Import Uint63.\nFrom Coq Require Import Strings.String.\nFrom Coq Require Import List ZArith Bool Arith Strings.Byte.\n"
             "From WH Require Import lib.Bytes lib.Wire gen.Extracted model.Vaa model.AlphPipeline.\n"
@@ -432,13 +432,15 @@ PIPE_HDR = ("From Coq Require Import Uint63.\nFrom Coq Require Import Strings.St
             "Definition xcount (x : xm) (l : list xm) : nat := length (filter (xm_eqb x) l).\n"
             "Definition xperm (a b : list xm) : bool := Nat.eqb (length a) (length b) && forallb (fun x => Nat.eqb (xcount x a) (xcount x b)) a.\n"
             "Fixpoint list_eqb (a b : list Z) : bool := match a, b with [], [] => true | x :: s, y :: t => (x =? y) && list_eqb s t | _, _ => false end.\n"
+            "(* expected batch [-7] = not compared *)\n"
+            "Definition ba_ok (got want : list Z) : bool := match want with [w] => if w =? -7 then true else list_eqb got want | _ => list_eqb got want end.\n"
             "Definition opt (want got : Z) : bool := (want <? 0) || (want =? got).\n"
             "Definition fcode (f : W.flag) : Z := match f with W.FNone => 0 | W.FFatal => 1 | W.FSpin => 2 | W.FPanic => 3 end.\n"
             "(* expected observation of one step: flag code, forwarded messages (any order; None = not compared), full digests?, batch uids (in order), page requests, fromIndex, poller flag *)\n"
             "Definition xexp := (Z * option (list xm) * bool * list Z * Z * Z * Z)%type.\n"
             "Definition xout_ok (s : xstate) (o : xout) (x : xexp) : bool := let '(fl, fw, full, ba, nr, fr, en) := x in\n"
             "  (fcode (xo_flag o) =? fl) && match fw with None => true | Some l => xperm (map (digest full) (xo_fwd o)) l end\n"
-            "  && list_eqb (map (fun u => x_uid (xu_ev u)) (xo_batch o)) ba && opt nr (Z.of_nat (xo_nreq o)) && opt fr (x_from s) && opt en (if x_enabled s then 1 else 0).\n"
+            "  && ba_ok (map (fun u => x_uid (xu_ev u)) (xo_batch o)) ba && opt nr (Z.of_nat (xo_nreq o)) && opt fr (x_from s) && opt en (if x_enabled s then 1 else 0).\n"
             "Fixpoint xchk (c : xcfg) (s : xstate) (ops : list xop) (xs : list xexp) : bool :=\n"
             "  match ops, xs with [], [] => true | o :: t, x :: xt => let '(s', r) := xstep c s o in xout_ok s' r x && xchk c s' t xt | _, _ => false end.\n"
             "Definition pcase := (xcfg * Z * list xop * list xexp)%type.\n")
@@ -469,13 +471,15 @@ def gS(hexs):
 
 class PipeTr:
     """one recorded history of the fields family as a case of model.AlphPipeline.
-    mode: 'full' = every field of every forwarded message; 'uid' = forwarded messages by uid, re-observation forwards not compared (C09)"""
+    mode: 'full' = every field of every forwarded message; 'uid' = forwarded messages by uid, re-observation forwards not compared (C09);
+    'msgs' = every field of every forwarded message, but neither the batches nor the poller flag (C11: the internal hand-over
+    between fetchEvents and the event loop is C09's business)"""
 
     def __init__(self, row, mode):
         self.row, self.mode, self.skip = row, mode, None
 
     def digest(self, m):
-        if self.mode != "full":
+        if self.mode == "uid":
             return "(%d, 0, 0, 0, 0, 0, 0, 0, 0, 0, 0)" % m["uid"]
         return "(%d, %d, %d, %s, %d, %d, %d, %s, %d, %d, %d)" % (m["uid"], core.hash_bytes(m["eaddr"]), m["tchain"], m["seq"], m["nonce"], core.hash_bytes(m["payload"]), m["cl"],
                                                                   z(m["secs"]), m["nsec"], m["echain"], core.hash_bytes(m["txhash"]))
@@ -493,7 +497,8 @@ class PipeTr:
 
     def case(self):
         row = self.row
-        full = self.mode == "full"
+        full = self.mode in ("full", "msgs")
+        nob = self.mode == "msgs"
         evs = {e["uid"]: e for e in row["events"]}
         nmax = max(evs) if evs else 0
         T = ["XE0"]
@@ -532,11 +537,11 @@ class PipeTr:
                         fl, ok = 2, False
                     else:
                         self.skip = "poll beyond its request bound"
-                xs.append("(%d, Some [], %s, %s, %s, %s, -1)" % (fl, fb, core.glist(str(u) for u in s["batch"]) if ok else "[]",
+                xs.append("(%d, Some [], %s, %s, %s, %s, -1)" % (fl, fb, "[-7]" if nob else (core.glist(str(u) for u in s["batch"]) if ok else "[]"),
                                                                 z(s["nreq"]) if s["res"] == "batch" else "-1", z(s["newfrom"]) if ok else "-1"))
             elif op == "deliver":
                 ops.append("XDeliver")
-                xs.append("(0, Some [], %s, [], -1, -1, %d)" % (fb, 1 if s["enabled"] else 0))
+                xs.append("(0, Some [], %s, [], -1, -1, %d)" % (fb, -1 if nob else (1 if s["enabled"] else 0)))
             elif op == "tick":
                 bl = {b[0]: b for b in s["blocks"]}
                 if s["err"] == "mainchain":
@@ -546,7 +551,7 @@ class PipeTr:
                 hd = "(fun _ => None)" if s["err"] == "header" else "hd"
                 ops.append("XTick %d %s %s %s" % (s["height"], z(s["lo"]), mc, hd))
                 fl = {"ok": 0, "fatal": 1, "panic": 3}.get(s["res"], 9)
-                xs.append("(%d, Some %s, %s, [], -1, -1, %s)" % (fl, core.glist(self.digest(m) for m in s["msgs"]), fb, ("1" if s["enabled"] else "0") if fl == 0 else "-1"))
+                xs.append("(%d, Some %s, %s, [], -1, -1, %s)" % (fl, core.glist(self.digest(m) for m in s["msgs"]), fb, ("1" if s["enabled"] else "0") if fl == 0 and not nob else "-1"))
             elif op == "reobs":
                 if s["status"] is None:
                     st = "None"
